@@ -14,4 +14,4 @@ def run(ctx):
 
 
 def replay(ctx, path):
-    return c08.replay(ctx, path)
+    return c08.replay(ctx, path, "subspace")
